@@ -351,8 +351,11 @@ func (p *Processor) ChargingDataUpdate(
 		if oper_err != nil {
 			logger.ChargingdataPostLog.Error("OpenCDR error:", oper_err)
 		}
-		logger.ChargingdataPostLog.Tracef(
-			"CDR Record Sequence Number after Reopen %+v", *cdr.ChargingFunctionRecord.RecordSequenceNumber)
+		// after a record split cdr is the continuation record, which has no
+		// partial record sequence number of its own yet
+		if seqNum := cdr.ChargingFunctionRecord.RecordSequenceNumber; seqNum != nil {
+			logger.ChargingdataPostLog.Tracef("CDR Record Sequence Number after Reopen %+v", *seqNum)
+		}
 	}
 
 	err = dumpCdrFile(ueId, ue.Records)
